@@ -479,69 +479,47 @@ def cells_match(z, key, kt, spec, mode):
 
 
 def check_inf_guard(ctx):
-    fi = ctx.repo.nfunc(FACTOR, 'Factor.__sub__')
-    other = fi.params[1]
-    guards = []
-    for c in calls_in(fi.node):
-        name = U(c.func)
-        if name.split('.')[-1] in ('where', 'isinf', 'isneginf', 'nan_to_num', 'isfinite', 'isposinf'):
-            if any(U(n) == other + '.values' or (isinstance(n, ast.Name) and n.id == other) for a in list(c.args) + [k.value for k in c.keywords]
-                   for n in ast.walk(a)):
-                guards.append(c)
-    # also masked stores: vals[mask] = 0 with mask from other.values
-    for s in ast.walk(fi.node):
-        if isinstance(s, ast.Assign) and isinstance(s.targets[0], ast.Subscript) and \
-                any('inf' in U(n) for n in ast.walk(s.targets[0].slice)):
-            guards.append(s)
-    # the guard must be on the non-scalar path: not inside the `if np.isscalar(other)` body
-    scalar_ifs = [s for s in fi.body if isinstance(s, ast.If) and 'isscalar' in U(s.test)]
-    inside = {id(n) for s in scalar_ifs for b in s.body for n in ast.walk(b)}
-    guards = [g for g in guards if id(g) not in inside]
-    # the selection must fire on infinite entries ONLY: log-space tables are defined up to an additive constant, so no finite value
-    # marks a structural zero (a threshold such as `<= log(1e-100)` makes the quotient depend on the constant)
+    """What `f - g` does at a structural zero, decided cell by cell (engines/cellsem.py: extended reals, affine finite values):
+         g finite:            f - g                      (f finite or -inf)
+         f = g = -inf:        -inf, never NaN            (dividing a belief by a message that is zero there leaves the zero alone)
+    `f` finite and `g = -inf` does not occur in belief propagation (a belief contains every message it has absorbed) and is not
+    constrained.  A selection that also fires on FINITE entries (a threshold) is reported before the cells are evaluated."""
+    from ..engines import cellsem as CS
     from ..normalise import Defs, expand
+    fi = ctx.repo.nfunc(FACTOR, 'Factor.__sub__')
+    ctx.analysed(fi)
+    other = fi.params[1]
     defs = Defs(fi.body)
     NEG_INF = ('-np.inf', '-numpy.inf', '-math.inf', "float('-inf')", "-float('inf')", 'np.NINF', '-inf', '-np.Inf', '-np.infty')
-
-    def mask_kind(m):
-        m = expand(m, defs, keep=(other,))
-        if isinstance(m, ast.UnaryOp) and isinstance(m.op, ast.Invert):
-            inner = m.operand
-            if isinstance(inner, ast.Call) and U(inner.func).split('.')[-1] == 'isfinite':
-                return 'exact', m
-            return 'unknown', m
-        if isinstance(m, ast.Call) and U(m.func).split('.')[-1] in ('isneginf', 'isinf'):
-            return 'exact', m
-        if isinstance(m, ast.Call) and U(m.func).split('.')[-1] == 'isfinite':
-            return 'exact', m          # the branches are then the other way round; the existing rule only asks for the selection
-        if isinstance(m, ast.Compare) and len(m.ops) == 1:
-            l, r, op = U(m.left).replace(' ', ''), U(m.comparators[0]).replace(' ', ''), m.ops[0]
-            if l in NEG_INF or r in NEG_INF:
-                val_left = r in NEG_INF
-                if isinstance(op, (ast.Eq, ast.NotEq)):
-                    return 'exact', m
-                if (isinstance(op, ast.LtE) and val_left) or (isinstance(op, ast.GtE) and not val_left):
-                    return 'exact', m
-                if (isinstance(op, ast.Gt) and val_left) or (isinstance(op, ast.Lt) and not val_left):
-                    return 'exact', m      # `x > -inf`: the finite entries
-                return 'never', m
-            if isinstance(op, (ast.Lt, ast.LtE, ast.Gt, ast.GtE)):
-                return 'threshold', m
-        return 'unknown', m
-    for g in guards:
-        if isinstance(g, ast.Call) and U(g.func).split('.')[-1] == 'where' and len(g.args) == 3:
-            kind, m = mask_kind(g.args[0])
-            if kind == 'unknown':
-                raise AnalysisError('Factor.__sub__: the selection `%s` is not a recognised test for infinite entries' % U(m)[:80])
-            ctx.ob('inf-guard', fi, g, kind == 'exact',
-                   'the selection of structural zeros of the subtrahend must be a test for infinite entries only; `%s` %s'
-                   % (U(m), {'exact': 'is one', 'threshold': 'also fires on finite entries: tables in log space are defined up to an additive '
-                                                             'constant, so the difference changes when a constant is added to a potential',
-                             'never': 'never fires'}[kind]), construct='selection mask of __sub__')
-    ctx.ob('inf-guard', fi, guards[0] if guards else fi.node, bool(guards),
-           'factor subtraction must select on infinities of the subtrahend (np.where(.. == -inf ..), isinf mask or '
-           'nan_to_num): (-inf) - (-inf) is NaN for every structural zero',
-           construct=U(guards[0]) if guards else 'def __sub__ (no infinity-aware selection on the non-scalar path)')
+    for g in calls_in(fi.node):
+        if U(g.func).split('.')[-1] == 'where' and len(g.args) == 3:
+            m = expand(g.args[0], defs, keep=(other,))
+            if isinstance(m, ast.Compare) and len(m.ops) == 1 and isinstance(m.ops[0], (ast.Lt, ast.LtE, ast.Gt, ast.GtE)):
+                l, r = U(m.left).replace(' ', ''), U(m.comparators[0]).replace(' ', '')
+                if l not in NEG_INF and r not in NEG_INF:
+                    ctx.ob('inf-guard', fi, g, False,
+                           'the selection of structural zeros of the subtrahend must be a test for infinite entries only; `%s` also fires on finite '
+                           'entries: tables in log space are defined up to an additive constant, so the difference changes when a constant is added '
+                           'to a potential' % U(m), construct='selection mask of __sub__')
+                    return
+    methods = {q.split('.', 1)[1]: f for q, f in fi.module.funcs.items() if q.startswith('Factor.') and q.count('.') == 1}
+    from ..normalise import normalised
+    methods = {k: normalised(ctx.repo, v) for k, v in methods.items()}
+    cases = [('both finite', CS.fin('f'), CS.fin('g'), CS.add(CS.fin('f'), CS.neg(CS.fin('g')))),
+             ('f = -inf, g finite', CS.NINF, CS.fin('g'), CS.NINF),
+             ('f = g = -inf (a structural zero on both sides)', CS.NINF, CS.NINF, CS.NINF)]
+    for label, f_, g_, want in cases:
+        ip = CS.Interp(methods)
+        try:
+            r = ip.call_method('__sub__', CS.Fac(f_), [CS.Fac(g_)])
+        except AnalysisError as e:
+            raise AnalysisError('Factor.__sub__ [%s]: %s' % (label, e))
+        if not isinstance(r, CS.Fac):
+            raise AnalysisError('Factor.__sub__ [%s]: does not return a factor' % label)
+        ctx.ob('inf-guard', fi, fi.node, CS.same(r.cell, want),
+               '[%s] (f - g) must be %s in that cell; the code computes %s%s'
+               % (label, CS.show(want), CS.show(r.cell), ' ((-inf) - (-inf) without a selection on the infinities of the subtrahend)' if r.cell == CS.NAN else ''),
+               construct='f - g where %s' % label)
 
 
 def check_division_guard(ctx):
